@@ -240,6 +240,9 @@ def run(loader, R, tier):
         if not sites:
             raise AnalysisBroken("handle_minus: no extraction site found")
 
+    # ---------------------------------------------------------------- R3.4
+    complementary_probe(prog, R)
+
     # ---------------------------------------------------------------- R3.2
     from selib.visitors import Visitors
     R.rule("R3.2", "every raw Add::dict_add_term receives a coefficient-free "
@@ -384,6 +387,86 @@ def add_key_typestate(prog, R, V):
                     "canonical" % (short(f["qn"]), txt[:40]))
         _sym.visit_guarded(f["body"], cb)
     R.floor("Add::dict_add_term call sites", nsites, 20)
+
+
+def complementary_probe(prog, R, rid="R3.4"):
+    """R3.4 / R4.3: And/Or::is_canonical reject a container that holds x together
+    with Not(x).  The factory and_or<> establishes that with a probe loop;
+    the probe must range over the very container that is handed to the
+    constructor, and that container must not change between the start of the
+    probe and the construction (establish-then-use)."""
+    R.rule(rid, "and_or<> probes the container it constructs from for "
+                   "complementary literals, after the last insertion")
+    fs = [f for f in prog.functions.values()
+          if f["n"] == "and_or" and f.get("tk") == "inst" and f.get("body")]
+    if len(fs) < 2:
+        raise AnalysisBroken("and_or<And>/and_or<Or> instantiations not "
+                             "found")
+    MUT = ("insert", "erase", "emplace", "clear", "swap", "merge")
+    for f in sorted(fs, key=lambda f: f["qn"]):
+        key = short(f["qn"])
+        top = f["body"].get("s", ())
+        # the construction site(s) and the container they use
+        ctor = [(i, n) for i, st in enumerate(top) for n in walk(st)
+                if n.get("k") == "call" and n.get("n") == "make_rcp"
+                and n.get("a")]
+        if not ctor:
+            raise AnalysisBroken(key + ": no construction site")
+        for ci, cn in ctor:
+            cont = [x["n"] for x in walk(cn["a"][0])
+                    if x.get("k") == "ref" and x.get("d") == "local"]
+            if not cont:
+                continue
+            cont = cont[0]
+            R.instance(rid, "%s:%s" % (key, cont))
+            # probe loops: range-for over a container whose body returns
+            # when <container>.find(logical_not(a)) != end()
+            probes = []
+            for i, st in enumerate(top[:ci + 1]):
+                if st.get("k") != "forr":
+                    continue
+                finds = [n for n in walk(st.get("b") or {})
+                         if n.get("k") == "mcall" and n.get("n") == "find"
+                         and any(y.get("k") in ("call", "mcall")
+                                 and y.get("n") == "logical_not"
+                                 for a in n.get("a", ()) for y in walk(a))]
+                if finds and any(n.get("k") == "return"
+                                 for n in walk(st.get("b") or {})):
+                    rng = [x["n"] for x in walk(st.get("r") or {})
+                           if x.get("k") == "ref"]
+                    tgt = [(n.get("o") or {}).get("n") for n in finds]
+                    probes.append((i, st, rng[0] if rng else None, tgt))
+            good = [p_ for p_ in probes
+                    if p_[2] == cont and all(t == cont for t in p_[3])]
+            if not good:
+                R.violation(
+                    rid, key, prog.loc(f, cn.get("l")),
+                    "%s constructs from `%s` but no probe loop ranges over "
+                    "`%s` looking each element's negation up in `%s` "
+                    "(probe loops found: %s): an operand that entered only "
+                    "through flattening is never used as a probe, so the "
+                    "result can hold x together with Not(x), which "
+                    "is_canonical rejects" % (
+                        key, cont, cont, cont,
+                        [(p_[2], p_[3]) for p_ in probes] or "none"))
+                continue
+            pi, pst = good[-1][0], good[-1][1]
+            # no mutation of the container inside the probe or between the
+            # probe and the construction (locals copied from it are fine)
+            muts = []
+            for st in [pst] + list(top[pi + 1:ci + 1]):
+                for n in walk(st):
+                    if n.get("k") == "mcall" and n.get("n") in MUT \
+                            and (n.get("o") or {}).get("k") == "ref" \
+                            and n["o"].get("n") == cont:
+                        muts.append(n.get("l"))
+            if muts:
+                R.violation(
+                    rid, key, prog.loc(f, muts[0]),
+                    "%s changes `%s` (line %s) after the complementary-"
+                    "literal probe has started: elements added later are "
+                    "not probed against the earlier ones" % (key, cont,
+                                                             muts[0]))
 
 
 MANIFEST = dict(
